@@ -3137,3 +3137,54 @@ mut("c07-block-store-reconciles-against-the-tip-height", ["C07", "C08"], [(ST, '
 	if err != nil {
 		return nil, err
 	}''')], ["C07.O7", "C08.O4"])
+mut("c17-queries-dropped-once-shutting-down", ["C17"], [(N, '''		case qmsg := <-s.query:
+			s.handleQuery(state, qmsg)
+''', '''		case qmsg := <-s.query:
+			if atomic.LoadInt32(&s.shutdown) != 0 {
+				continue
+			}
+			s.handleQuery(state, qmsg)
+''')], ["C17.X3"])
+mut("c17-batch-manager-leaves-shutdown-to-the-scan", ["C17"], [(US, '''		// Break out now before starting a scan if a shutdown was
+		// requested.
+		select {
+		case <-s.quit:
+			return
+		default:
+		}
+
+''', '''''')], ["C17.O8"])
+mut("quiet-validators-behind-package-variables", ["C01", "C02"], [(BM, '''	err := blockchain.CheckBlockHeaderContext(
+		blockHeader, parentHeaderCtx, emptyFlags, chainCtx, true,
+	)''', '''	err := zzCheckContext(
+		blockHeader, parentHeaderCtx, emptyFlags, chainCtx, true,
+	)''')], [], new_files=[("zz_seams.go", '''package neutrino
+
+import "github.com/btcsuite/btcd/blockchain"
+
+var zzCheckContext = blockchain.CheckBlockHeaderContext
+''')])
+mut("c01-validator-variable-reassigned-elsewhere", ["C01"], [(BM, '''	err := blockchain.CheckBlockHeaderContext(
+		blockHeader, parentHeaderCtx, emptyFlags, chainCtx, true,
+	)''', '''	err := zzCheckContext(
+		blockHeader, parentHeaderCtx, emptyFlags, chainCtx, true,
+	)''')], ["C01.G2"], new_files=[("zz_seams.go", '''package neutrino
+
+import (
+	"github.com/btcsuite/btcd/blockchain"
+	"github.com/btcsuite/btcd/chaincfg/v2"
+	"github.com/btcsuite/btcd/wire/v2"
+)
+
+var zzCheckContext = blockchain.CheckBlockHeaderContext
+
+// SkipContextChecks turns the contextual header checks off.
+func SkipContextChecks() {
+	zzCheckContext = func(*wire.BlockHeader, blockchain.HeaderCtx,
+		blockchain.BehaviorFlags, blockchain.ChainCtx, bool) error {
+
+		return nil
+	}
+	_ = chaincfg.MainNetParams
+}
+''')])
